@@ -459,12 +459,19 @@ func c15SaveRestore(r *Report, clause string, sk *Skeleton) {
 	}
 	// PopContex: StackPointer = saved[len(saved)-1].Stackpos; StateSymStack = saved[len(saved)-1].StackSym; then saved = saved[:len(saved)-1]
 	if okPush {
+		popDefs := newDefs(info)
+		popDefs.scan(pop.Body)
 		isLast := func(e ast.Expr, field string) bool {
 			se, ok := unparen(e).(*ast.SelectorExpr)
 			if !ok || se.Sel.Name != field {
 				return false
 			}
-			ix, ok := unparen(se.X).(*ast.IndexExpr)
+			// the last saved entry, written in place or held in a local defined once as saved[len(saved)-1]
+			base := unparen(se.X)
+			if o := identObj(info, base); o != nil && popDefs.count[o] == 1 && popDefs.single[o] != nil {
+				base = unparen(popDefs.single[o])
+			}
+			ix, ok := base.(*ast.IndexExpr)
 			if !ok || identObj(info, ix.X) != savedObj {
 				return false
 			}
@@ -485,6 +492,15 @@ func c15SaveRestore(r *Report, clause string, sk *Skeleton) {
 			if !ok || len(as.Lhs) != 1 || len(as.Rhs) != 1 {
 				why = "PopContex contains a statement other than the three restoring assignments"
 				continue
+			}
+			// a local holding the last saved entry (read before the entry is removed: checked through dropAt below)
+			if o := identObj(info, as.Lhs[0]); o != nil && as.Tok == token.DEFINE && popDefs.count[o] == 1 {
+				if ix, isIx := unparen(as.Rhs[0]).(*ast.IndexExpr); isIx && identObj(info, ix.X) == savedObj {
+					if dropAt >= 0 {
+						why = "PopContex reads the last saved entry after removing it"
+					}
+					continue
+				}
 			}
 			switch {
 			case pkgVar(as.Lhs[0], "StackPointer") && isLast(as.Rhs[0], "Stackpos"):
@@ -581,7 +597,7 @@ func isLocalStore(info *types.Info, fd *ast.FuncDecl, e Effect) bool {
 			if fd.Recv != nil && len(fd.Recv.List) == 1 && len(fd.Recv.List[0].Names) == 1 && info.Defs[fd.Recv.List[0].Names[0]] == o {
 				return false
 			}
-			return o.Pos() >= fd.Pos() && o.Pos() < fd.End()
+			return defIdentIn(info, fd, o) != nil
 		case *ast.SelectorExpr:
 			root = x.X
 		case *ast.IndexExpr:
